@@ -230,11 +230,7 @@ Proof.
   induction l as [|x r IH]; intros; simpl.
   - destruct (Nat.eq_dec j i); destruct j; auto.
   - destruct i as [|i]; destruct j as [|j]; simpl; auto.
-    + destruct (Nat.eq_dec (S j) 0); [discriminate | auto].
-    + destruct (Nat.eq_dec 0 (S i)); [discriminate | auto].
-    + rewrite IH. destruct (Nat.eq_dec j i); destruct (Nat.eq_dec (S j) (S i)); try lia; auto.
-      subst. change (S i <? S (length r)) with (i <? length r). destruct (i <? length r) eqn:E; auto.
-      apply Nat.ltb_ge in E. apply nth_overflow. lia.
+    rewrite IH. destruct (Nat.eq_dec j i); simpl; auto.
 Qed.
 
 Lemma nth_error_upd_nth : forall {X} (l : list X) i j f,
@@ -243,9 +239,7 @@ Proof.
   induction l as [|x r IH]; intros; simpl.
   - destruct (Nat.eq_dec j i); destruct j; destruct i; auto.
   - destruct i as [|i]; destruct j as [|j]; simpl; auto.
-    + destruct (Nat.eq_dec (S j) 0); [discriminate | auto].
-    + destruct (Nat.eq_dec 0 (S i)); [discriminate | auto].
-    + rewrite IH. destruct (Nat.eq_dec j i); destruct (Nat.eq_dec (S j) (S i)); try lia; auto.
+    rewrite IH. destruct (Nat.eq_dec j i); simpl; auto.
 Qed.
 
 Lemma length_upd_nth : forall {X} (l : list X) i f, length (upd_nth i f l) = length l.
